@@ -9,6 +9,8 @@ CONSTANTS
   CacheKey = "none"
   HistRule = 1
   HistLen = 3
+  AllowedAlphabet <- PlainAlphabet
+  PollAlphabet <- CaseBlankAlphabet
 INIT PInit
 NEXT PStutter
 INVARIANT PEmit
